@@ -285,6 +285,9 @@ func (r *DeviceLocal) EntityForType(entityType model.EntityTypeType) api.EntityL
 }
 
 func (r *DeviceLocal) FeatureByAddress(address *model.FeatureAddressType) api.FeatureLocalInterface {
+	if address == nil {
+		return nil
+	}
 	entity := r.Entity(address.Entity)
 	if entity != nil {
 		return entity.FeatureOfAddress(address.Feature)
@@ -301,6 +304,9 @@ func (r *DeviceLocal) CleanRemoteEntityCaches(remoteAddress *model.EntityAddress
 }
 
 func (r *DeviceLocal) ProcessCmd(datagram model.DatagramType, remoteDevice api.DeviceRemoteInterface) error {
+	if datagram.Header.AddressSource == nil || datagram.Header.AddressDestination == nil {
+		return errors.New("datagram header lacks source or destination address")
+	}
 	destAddr := datagram.Header.AddressDestination
 	localFeature := r.FeatureByAddress(destAddr)
 
